@@ -65,7 +65,7 @@ def setup():
 
 
 def plan(tier, seed):
-    n = 480 if tier == "quick" else 12000
+    n = 1200 if tier == "quick" else 12000
     cids = [["small", i] for i in range(n)]
     cids += [["big", i] for i in range(max(4, n // 60))]
     cids += [["laws", i] for i in range(n // 8)]
